@@ -298,6 +298,11 @@ def episode(scn):
         obs["verbs"] = list(ctl.verbs)
         obs["codes"] = [c[1] for c in ctl.calls]
         obs["dispatch_errors"] = ctl.dispatch_errors[:5]
+        try:          # every public view right after the transfers (for C13: a fetch leaves nothing behind that a view trips over)
+            from .. import gw as _gw  # noqa: PLC0415
+            obs["views_bad"] = [list(b) for b in _gw.read_views(gwy)[1]]
+        except Exception as err:  # noqa: BLE001
+            obs["views_bad"] = [["gateway", "read_views", type(err).__name__, str(err)[:100], ""]]
         obs["nfrags"] = {z: len(v[1]) for z, v in ctl.zones.items()}
         await gwy.stop()
 
